@@ -9,6 +9,7 @@ ID="$1"; TIER="${2:-quick}"
 shift; [ $# -gt 0 ] && shift
 VERIF_ROOT="${VERIF_ROOT:-/verif}"; export VERIF_ROOT
 CARGO_NET_OFFLINE=true; export CARGO_NET_OFFLINE
+RUST_BACKTRACE=0; RUST_LIB_BACKTRACE=0; export RUST_BACKTRACE RUST_LIB_BACKTRACE
 if ! (cd "$VERIF_ROOT/harness" && cargo build --release --offline -q 2>"$VERIF_ROOT/harness/build.log"); then
   echo "INCONCLUSIVE property=$ID harness or /repo failed to build (see harness/build.log)"
   grep -E "^error" -A 8 "$VERIF_ROOT/harness/build.log" | head -40
